@@ -283,6 +283,7 @@ func TestC04_CallPlans(t *testing.T) {
 	}
 	addr := srv.Address()
 	ev.Check(t, c04, func(rt *rapid.T) {
+		defer drawSched(rt).install()() // seeded yields at the library's schedule points
 		o := rpc.Default()
 		o.ClientMaxConns = rapid.IntRange(1, 3).Draw(rt, "maxconns")
 		o.ClientConnChannels = rapid.IntRange(1, 8).Draw(rt, "target")
